@@ -35,6 +35,25 @@ Theorem C07_machine_accesses_under_lock : forall g progs s want s' tid evs,
 Proof. exact machine_accesses_under_lock. Qed.
 Print Assumptions C07_machine_accesses_under_lock.
 
+(* whole runs: in the trace of every run of the machine from a reachable state, under any schedule, a
+   slot access directly follows the lock request for that slot by the same thread ... *)
+Theorem C07_run_accesses_under_lock : forall g progs fuel s sched rr,
+  Reach g progs s -> flat_ok None (snd (crun g fuel s sched rr)) = true.
+Proof. exact run_accesses_under_lock. Qed.
+Print Assumptions C07_run_accesses_under_lock.
+
+(* ... which, read as a trace of synchronisation events, is exactly the premise [inside] of theorem (A):
+   every access event lies in a critical section of the lock with its slot's identifier *)
+Theorem C07_flat_ok_inside : forall slot_id tr prev k t x,
+  flat_ok prev tr = true ->
+  nth_error (strace_of slot_id tr) k = Some (t, EAcc x) ->
+  match k with
+  | O => exists b i, prev = Some (t, b, i) /\ x = slot_id b i
+  | S k' => exists w, inside (strace_of slot_id tr) t x w k' k
+  end.
+Proof. exact flat_ok_inside. Qed.
+Print Assumptions C07_flat_ok_inside.
+
 (* the source as it is now: every update of the reference count is AcqRel (hypotheses of (B) for any
    decrement being the last one), nobody forms an exclusive reference to the shared counter, and an
    exclusive reference to the content of a child slot is formed only by the teardown (which runs
